@@ -32,8 +32,9 @@ type FieldDef struct {
 }
 
 type TypeDef struct {
-	Name   string
-	Fields []*FieldDef
+	Name      string
+	Fields    []*FieldDef
+	ChainTail *FieldDef // ReqChains: the last field of the type's @requires chain
 }
 
 type Schema struct {
@@ -92,6 +93,11 @@ type GenOptions struct {
 	UnknownEntities bool // some entities are unknown to some subgraph: `null` inside `_entities` (no error)
 	Serial      bool // force a fully serial fetch tree
 	SharedOps   bool // operation text depends on the selection only (two fetches may send identical requests; C16b wants shared cache keys)
+	// ReqChains: @requires chains of length 3..4 per entity type (x <- y <- z: z's fetch depends on y's, y's on x's,
+	// z's NOT on x's) plus further fields requiring a chain member (a DAG); mostly nullable inputs (with NullableReq)
+	ReqChains bool
+	// DepSingles: some root (Single) fetches get DependsOnFetchIDs on an entity / batch fetch of the plan
+	DepSingles bool
 }
 
 type Gen struct {
@@ -122,6 +128,8 @@ func (g *Gen) typeFields(t *TypeDef, nsub int, isQuery bool) {
 	ns := 2 + g.R.Pick(4)
 	if isQuery {
 		ns = g.R.Pick(3)
+	} else if g.Opt.ReqChains {
+		ns = 4 + g.R.Pick(2)
 	}
 	kinds := []plan.Kind{plan.KStr, plan.KStr, plan.KInt, plan.KFloat, plan.KBool}
 	perm := g.R.Perm(len(scalarFieldNames))
@@ -137,6 +145,41 @@ func (g *Gen) typeFields(t *TypeDef, nsub int, isQuery bool) {
 	for i := 0; i < nl && i < len(perm); i++ {
 		t.Fields = append(t.Fields, &FieldDef{Name: linkFieldNames[perm[i]], Target: common.PickOf(g.R, entityTypeNames),
 			List: g.R.Chance(1, 2), Nullable: g.R.Chance(1, 2), ItemNullable: g.R.Chance(1, 2), Owner: g.R.Pick(nsub)})
+	}
+	if g.Opt.ReqChains && !isQuery {
+		var sc []*FieldDef
+		for _, f := range t.Fields {
+			if f.Scalar != 0 {
+				sc = append(sc, f)
+			}
+		}
+		l := 3 + g.R.Pick(2)
+		if l > len(sc) {
+			l = len(sc)
+		}
+		for i := 1; i < l; i++ {
+			if sc[i].Owner == sc[i-1].Owner {
+				sc[i].Owner = (sc[i].Owner + 1 + g.R.Pick(nsub-1)) % nsub
+			}
+			sc[i].Requires = sc[i-1]
+			if g.Opt.NullableReq {
+				sc[i-1].Nullable = g.R.Chance(3, 4)
+			} else {
+				sc[i-1].Nullable = false
+			}
+			t.ChainTail = sc[i]
+		}
+		// the other scalars may need a member of the chain as well (two inputs of one fetch: a DAG)
+		for _, f := range sc[l:] {
+			if !g.R.Chance(1, 2) {
+				continue
+			}
+			r := sc[g.R.Pick(l)]
+			if r.Owner != f.Owner && (g.Opt.NullableReq || !r.Nullable) {
+				f.Requires = r
+			}
+		}
+		return
 	}
 	if g.Opt.Requires && !isQuery {
 		// some scalar fields require another scalar field of the same type owned by a different subgraph
